@@ -60,3 +60,15 @@ Theorem C10_plate_amounts_of_app : forall cf p ss1 ss2 u,
           (combine (plate_amounts_of cf p ss1 u) (plate_amounts_of cf p ss2 u)).
 Proof. exact plate_amounts_of_app. Qed.
 Print Assumptions C10_plate_amounts_of_app.
+(* read through a slice: one entry per addressed well in the region's order, each the volume of that well's contents;
+   the entries do not depend on wells outside the region *)
+Theorem C10_slice_volumes_wellwise : forall cf p r pr, PInv cf p ->
+  Forall2 (fun v i => forall c, nth_error (wells p) i = Some c -> v == total_in cf (cont c) (pr, BL))
+          (slice_volumes cf p r pr) (region_idx (ncols p) r).
+Proof. exact slice_volumes_wellwise. Qed.
+Print Assumptions C10_slice_volumes_wellwise.
+Theorem C10_slice_volumes_frame : forall cf p ws' r pr,
+  (forall i, In i (region_idx (ncols p) r) -> nth_error ws' i = nth_error (wells p) i) ->
+  slice_volumes cf (with_wells p ws') r pr = slice_volumes cf p r pr.
+Proof. exact slice_volumes_frame. Qed.
+Print Assumptions C10_slice_volumes_frame.
